@@ -175,9 +175,9 @@ Valid == [
 (***************************************************************************)
 (* Core field sets.  The thorough tier enumerates, for every set K in      *)
 (* Core[rpc], the FULL product over the fields of K with the other fields  *)
-(* valid.  For all RPCs but three K is the set of all fields, i.e. the     *)
-(* full product of the RPC.  For the three wide requests the product of    *)
-(* all fields has 10^6..10^7 elements; there the core sets are the groups  *)
+(* valid.  For all RPCs but two K is the set of all fields, i.e. the     *)
+(* full product of the RPC.  For the two wide requests the product of all  *)
+(* fields has 10^6..10^7 elements; there the core sets are the groups      *)
 (* of fields that meet in one code path (names x durations x policies;     *)
 (* mask x the fields a path selects), and the remaining interactions are   *)
 (* covered by the t-wise rows computed from this table.                    *)
@@ -185,17 +185,15 @@ Valid == [
 AllFields(r) == DOMAIN Classes[r]
 WideCore == [
   CreateSubscription |-> {{"name", "topic", "message_retention_duration", "expiration_policy",
-                           "dead_letter_policy", "retry_policy"},
+                           "dead_letter_policy", "retry_policy", "push_config"},
                           {"name", "push_config", "filter", "detached", "enable_message_ordering",
-                           "labels", "retain_acked_messages"}},
-  UpdateSubscription |-> {{"subscription", "update_mask"},
-                          {"update_mask", "expiration_policy", "message_retention_duration"},
-                          {"update_mask", "dead_letter_policy", "retry_policy"},
+                           "labels", "retain_acked_messages", "ack_deadline_seconds"}},
+  UpdateSubscription |-> {{"subscription", "update_mask", "push_config", "filter"},
+                          {"update_mask", "expiration_policy", "message_retention_duration",
+                           "dead_letter_policy"},
+                          {"update_mask", "dead_letter_policy", "retry_policy", "push_config"},
                           {"update_mask", "push_config", "filter", "labels",
-                           "enable_message_ordering"}},
-  StreamingPull |-> {{"subscription", "ack_ids", "modify_deadline", "max_outstanding_messages",
-                      "max_outstanding_bytes"},
-                     {"subscription", "stream_ack_deadline_seconds", "client_id"}}
+                           "enable_message_ordering"}}
 ]
 Core(r) == IF r \in DOMAIN WideCore THEN WideCore[r] ELSE {AllFields(r)}
 
